@@ -386,18 +386,8 @@ fn expr_atom(input: &[u8], root_predicate: bool) -> IResult<&[u8], Expr<'_>> {
                 })
             },
         ),
-        map(
-            tuple((
-                unary_arith_op,
-                delimited(multispace0, |i| inner_expr(i, root_predicate), multispace0),
-            )),
-            |(op, operand)| {
-                Expr::ArithmeticFunc(ArithmeticFunc::Unary {
-                    op,
-                    operand: Box::new(operand),
-                })
-            },
-        ),
+        // a comparison is tried before the unary arithmetic expression,
+        // so that a negative number can be the left operand of a comparison.
         map(
             tuple((
                 delimited(multispace0, |i| inner_expr(i, root_predicate), multispace0),
@@ -408,6 +398,18 @@ fn expr_atom(input: &[u8], root_predicate: bool) -> IResult<&[u8], Expr<'_>> {
                 op,
                 left: Box::new(left),
                 right: Box::new(right),
+            },
+        ),
+        map(
+            tuple((
+                unary_arith_op,
+                delimited(multispace0, |i| inner_expr(i, root_predicate), multispace0),
+            )),
+            |(op, operand)| {
+                Expr::ArithmeticFunc(ArithmeticFunc::Unary {
+                    op,
+                    operand: Box::new(operand),
+                })
             },
         ),
         map(
